@@ -317,7 +317,30 @@ fn split_tokens_by_pipes(tokens: &[Token]) -> Vec<Tokens> {
     cmds
 }
 
-fn drain_env_tokens(tokens: &mut Tokens) -> HashMap<String, String> {
+/// For the leading `NAME=value` words of a line as written: the name, and
+/// whether the value starts with a quote character.
+fn leading_values_written_quoted(tokens: &Tokens) -> Vec<(String, bool)> {
+    let re = Regex::new(r"(?s)^([a-zA-Z0-9_]+)=(.*)$").unwrap();
+    let mut result = Vec::new();
+    for (sep, text) in tokens.iter() {
+        if !sep.is_empty() {
+            break;
+        }
+        match re.captures(text) {
+            Some(cap) => {
+                let quoted = cap[2].starts_with('"') || cap[2].starts_with('\'');
+                result.push((cap[1].to_string(), quoted));
+            }
+            None => break,
+        }
+    }
+    result
+}
+
+/// `written_quoted`: see `leading_values_written_quoted()`. Quote characters
+/// at both ends of a value are removed only when they were written there;
+/// when an expansion produced them they are part of the value.
+fn drain_env_tokens(tokens: &mut Tokens, written_quoted: &[(String, bool)]) -> HashMap<String, String> {
     let mut envs: HashMap<String, String> = HashMap::new();
     let mut n = 0;
     let re = Regex::new(r"(?s)^([a-zA-Z0-9_]+)=(.*)$").unwrap();
@@ -328,7 +351,15 @@ fn drain_env_tokens(tokens: &mut Tokens) -> HashMap<String, String> {
 
         for cap in re.captures_iter(text) {
             let name = cap[1].to_string();
-            let value = parsers::parser_line::unquote(&cap[2]);
+            let as_written = match written_quoted.get(n) {
+                Some((nm, quoted)) => *quoted || *nm != name,
+                None => true,
+            };
+            let value = if as_written {
+                parsers::parser_line::unquote(&cap[2])
+            } else {
+                cap[2].to_string()
+            };
             envs.insert(name, value);
         }
 
@@ -344,8 +375,9 @@ impl CommandLine {
     pub fn from_line(line: &str, sh: &mut shell::Shell) -> Result<CommandLine, String> {
         let linfo = parsers::parser_line::parse_line(line);
         let mut tokens = linfo.tokens;
+        let written_quoted = leading_values_written_quoted(&tokens);
         shell::do_expansion(sh, &mut tokens);
-        let envs = drain_env_tokens(&mut tokens);
+        let envs = drain_env_tokens(&mut tokens, &written_quoted);
 
         let mut background = false;
         let len = tokens.len();
